@@ -191,6 +191,7 @@ type VerifHSWorld struct {
 	hh     map[uint64]*HandshakeHostInfo
 	nextID uint64
 
+	rxKeys   []noiseutil.CipherState // peers' receive keys of completed initiator handshakes (to read released packets)
 	stage1   [][]byte          // stage-1 payload number (1-based) -> full packet
 	stage2   map[uint64][]byte // hostinfo id -> the stage-2 reply this node built for it
 	fallback uint32
@@ -508,8 +509,11 @@ func (w *VerifHSWorld) DeliverStage2(id uint64, peer int, ridx uint32, t uint64,
 		InitiatorIndex: mine.InitiatorIndex, Time: t, CertVersion: uint32(p.version)})
 	pkt := header.Encode(make([]byte, header.Len), header.Version, header.Handshake, header.HandshakeIXPSK0,
 		mine.InitiatorIndex, 2)
-	pkt, _, _, err = hs.WriteMessage(pkt, payload)
+	pkt, cs1, _, err := hs.WriteMessage(pkt, payload)
 	verifHSMust(err)
+	if cs1 != nil {
+		w.rxKeys = append(w.rxKeys, noiseutil.NewCipherState(cs1, noiseutil.CipherAESGCM))
+	}
 	w.incoming(pkt, v)
 	w.adopt()
 }
@@ -600,6 +604,42 @@ func (w *VerifHSWorld) SetRemotes(a uint64, remotes []uint64) bool {
 	return true
 }
 
+// Remotes is what handleOutbound will read: hostinfo.remotes.CopyAddrs(preferred ranges) of the pending handshake of a.
+func (w *VerifHSWorld) Remotes(a uint64) []uint64 {
+	hh := w.hsm.queryVpnIp(VerifHSAddr(a))
+	if hh == nil || hh.hostinfo.remotes == nil {
+		return nil
+	}
+	var r []uint64
+	for _, ap := range hh.hostinfo.remotes.CopyAddrs(w.hm.GetPreferredRanges()) {
+		r = append(r, verifHSUnderlayNum(ap))
+	}
+	return r
+}
+
+// PendingID returns the hostinfo id of the pending handshake of a.
+func (w *VerifHSWorld) PendingID(a uint64) (uint64, bool) {
+	hh := w.hsm.queryVpnIp(VerifHSAddr(a))
+	if hh == nil {
+		return 0, false
+	}
+	return w.idOf(hh.hostinfo), true
+}
+
+// DropMainTunnels removes every established tunnel from the main hostmap (the C32 component only follows pending
+// handshakes; with the tunnel gone a later inside packet starts a new handshake).
+func (w *VerifHSWorld) DropMainTunnels() {
+	w.hm.RLock()
+	var hs []*HostInfo
+	for _, h := range w.hm.Indexes {
+		hs = append(hs, h)
+	}
+	w.hm.RUnlock()
+	for _, h := range hs {
+		w.hm.DeleteHostInfo(h)
+	}
+}
+
 // Trigger is what Run does with an address from the trigger channel.
 func (w *VerifHSWorld) Trigger(a uint64) { w.hsm.handleOutbound(VerifHSAddr(a), true) }
 
@@ -613,6 +653,7 @@ type VerifHSPending struct {
 	Counter int64
 	Ready   bool
 	Queue   []uint32 // tags of the queued packets, in order
+	Ports   []uint16 // their udp destination ports
 	HasIdx  bool     // registered in HandshakeManager.indexes
 	Blocked []uint64
 }
@@ -628,6 +669,11 @@ func (w *VerifHSWorld) Pending() []VerifHSPending {
 				tag = binary.BigEndian.Uint32(cp.packet[28:])
 			}
 			p.Queue = append(p.Queue, tag)
+			port := uint16(0)
+			if len(cp.packet) >= 24 {
+				port = binary.BigEndian.Uint16(cp.packet[22:])
+			}
+			p.Ports = append(p.Ports, port)
 		}
 		if cur, ok := w.hsm.indexes[hh.hostinfo.localIndexId]; ok && cur == hh {
 			p.HasIdx = true
@@ -642,6 +688,18 @@ func (w *VerifHSWorld) Pending() []VerifHSPending {
 	w.hsm.RUnlock()
 	sort.Slice(out, func(i, j int) bool { return out[i].Addr < out[j].Addr })
 	return out
+}
+
+// IndexOwners lists the hostinfo ids registered in HandshakeManager.indexes, sorted.
+func (w *VerifHSWorld) IndexOwners() []uint64 {
+	var r []uint64
+	w.hsm.RLock()
+	for _, hh := range w.hsm.indexes {
+		r = append(r, w.idOf(hh.hostinfo))
+	}
+	w.hsm.RUnlock()
+	sort.Slice(r, func(i, j int) bool { return r[i] < r[j] })
+	return r
 }
 
 // PendingIndexCount is len(HandshakeManager.indexes).
@@ -663,10 +721,12 @@ const (
 )
 
 type VerifHSOut struct {
-	Kind int
-	X    uint64 // hostinfo id (stage 0 / stage 2)
-	R    uint32 // header remote index
-	U    uint64 // underlay address number
+	Kind  int
+	X     uint64 // hostinfo id (stage 0 / stage 2)
+	R     uint32 // header remote index
+	U     uint64 // underlay address number
+	Tag   uint32 // data: the tag of the inside packet, read with the peer's receive key
+	TagOK bool
 }
 
 // TakeOutputs classifies and clears what reached the socket since the last call.
@@ -700,6 +760,12 @@ func (w *VerifHSWorld) TakeOutputs() []VerifHSOut {
 				o.Kind = VerifHSOutClose
 			case h.Type == header.Message:
 				o.Kind = VerifHSOutData
+				for _, k := range w.rxKeys {
+					if plain, err := k.DecryptDanger(nil, p.b[:header.Len], p.b[header.Len:], h.MessageCounter, make([]byte, 12)); err == nil && len(plain) >= 32 {
+						o.Tag, o.TagOK = binary.BigEndian.Uint32(plain[28:]), true
+						break
+					}
+				}
 			}
 		}
 		out = append(out, o)
